@@ -3,11 +3,15 @@ package main
 
 import (
 	"bytes"
+	"context"
 	"fmt"
 	"math"
 	"sort"
 	"strconv"
 	"strings"
+	"time"
+
+	"github.com/blugelabs/bluge"
 
 	"github.com/blugelabs/bluge/numeric"
 	"github.com/blugelabs/bluge/search/searcher"
@@ -187,6 +191,55 @@ func (h) Gen(r *hlib.Rand, tier string, scale int, emit func(string)) {
 			emit("member " + hx(lo) + " " + hx(hi) + " " + hx(v))
 		}
 	}
+	// incrementBytes and the float end-point handling of NewNumericRangeSearcher
+	for i := 0; i < n/2; i++ {
+		l := r.Intn(6)
+		b := make([]byte, l)
+		for j := range b {
+			switch r.Intn(4) {
+			case 0:
+				b[j] = 0xff
+			case 1:
+				b[j] = 0x7f
+			default:
+				b[j] = byte(r.Intn(256))
+			}
+		}
+		emit("inc " + hlib.Hex(b))
+	}
+	// end-to-end: a real index with one document per value, searched with NumericRangeQuery
+	vals := []uint64{}
+	for i, f := range fb {
+		if f&0x7ff0000000000000 != 0x7ff0000000000000 && i%2 == 0 { // finite
+			vals = append(vals, f)
+		}
+	}
+	vals = append(vals, math.Float64bits(math.Inf(1)), math.Float64bits(math.Inf(-1)))
+	vs := make([]string, len(vals))
+	for i, v := range vals {
+		vs[i] = hx(v)
+	}
+	vlist := strings.Join(vs, ",")
+	ends := append(append([]uint64{}, vals...), math.Float64bits(2.5), math.Float64bits(-2.5), math.Float64bits(1e-300))
+	for i := 0; i < n/2; i++ {
+		a, b := ends[r.Intn(len(ends))], ends[r.Intn(len(ends))]
+		fa, fb2 := math.Float64frombits(a), math.Float64frombits(b)
+		if r.Chance(75) && fa > fb2 {
+			a, b, fa, fb2 = b, a, fb2, fa
+		}
+		// the known finding (range straddling zero at tiny magnitude never returns) is left to the probe below
+		if fa < 0 && fb2 > 0 && math.Abs(fa) < 1e-290 && math.Abs(fb2) < 1e-290 {
+			continue
+		}
+		if (fa <= 0 && fb2 >= 0) && (math.Abs(fa) < 1e-290 || math.Abs(fb2) < 1e-290) && !(fa == 0 && fb2 == 0) {
+			// one end is ±0 or tiny: the int64 images straddle or touch zero; keep only the safe shapes
+			if !(fa == 0 && math.Signbit(fa) == false) && !(fb2 == 0 && math.Signbit(fb2)) {
+				continue
+			}
+		}
+		emit(fmt.Sprintf("rangeq %s %s %v %v %s", hx(a), hx(b), r.Bool(), r.Bool(), vlist))
+	}
+	emit(fmt.Sprintf("rangeq %s %s true true %s", hx(math.Float64bits(-1e-320)), hx(math.Float64bits(1e-320)), vlist))
 	for i := 0; i < n/4; i++ {
 		a, b := r.U64()&0xffffffff, r.U64()&0xffffffff
 		emit("il " + hx(a) + " " + hx(b))
@@ -275,7 +328,7 @@ func (h) Exec(line string, out func(string, string), st *hlib.Stats, work string
 				}()
 				searcher.VerifEnumerateFilter(int64(p64(w[1])), int64(p64(w[2])), 4, func(t []byte) bool {
 					steps++
-					if steps > 20000 {
+					if steps > 2000000 {
 						panic("cap")
 					}
 					if want[string(t)] {
@@ -288,6 +341,10 @@ func (h) Exec(line string, out func(string, string), st *hlib.Stats, work string
 				return "diverges"
 			}
 			return strconv.FormatBool(hit)
+		case "inc":
+			return hlib.Hex(searcher.VerifIncrementBytes(unhex(w[1])))
+		case "rangeq":
+			return rangeq(w)
 		case "il":
 			return hx(numeric.Interleave(p64(w[1]), p64(w[2])))
 		case "dil":
@@ -300,6 +357,70 @@ func (h) Exec(line string, out func(string, string), st *hlib.Stats, work string
 	nontrivial := len(w) < 3 || w[1] != w[2]
 	st.Case(line, nontrivial)
 	out(line, res)
+}
+
+var idxCache = map[string]*bluge.Reader{}
+
+// rangeq runs a real NumericRangeQuery against an in-memory index holding one document per value.
+func rangeq(w []string) string {
+	rd, ok := idxCache[w[5]]
+	vals := strings.Split(w[5], ",")
+	if !ok {
+		wr, err := bluge.OpenWriter(bluge.InMemoryOnlyConfig())
+		if err != nil {
+			return "err"
+		}
+		b := bluge.NewBatch()
+		for i, v := range vals {
+			d := bluge.NewDocument(strconv.Itoa(i)).AddField(bluge.NewNumericField("n", math.Float64frombits(p64(v))))
+			b.Update(d.ID(), d)
+		}
+		if err := wr.Batch(b); err != nil {
+			return "err"
+		}
+		rd, err = wr.Reader()
+		if err != nil {
+			return "err"
+		}
+		idxCache[w[5]] = rd
+	}
+	type out struct {
+		s string
+	}
+	ch := make(chan out, 1)
+	go func() {
+		defer func() {
+			if recover() != nil {
+				ch <- out{"panic"}
+			}
+		}()
+		q := bluge.NewNumericRangeInclusiveQuery(math.Float64frombits(p64(w[1])), math.Float64frombits(p64(w[2])), w[3] == "true", w[4] == "true").SetField("n")
+		it, err := rd.Search(context.Background(), bluge.NewAllMatches(q))
+		if err != nil {
+			ch <- out{"err"}
+			return
+		}
+		hit := make([]byte, len(vals))
+		for i := range hit {
+			hit[i] = '0'
+		}
+		for m, err := it.Next(); m != nil && err == nil; m, err = it.Next() {
+			_ = m.VisitStoredFields(func(field string, value []byte) bool {
+				if field == "_id" {
+					i, _ := strconv.Atoi(string(value))
+					hit[i] = '1'
+				}
+				return true
+			})
+		}
+		ch <- out{string(hit)}
+	}()
+	select {
+	case o := <-ch:
+		return o.s
+	case <-time.After(3 * time.Second):
+		return "diverges" // the goroutine keeps walking; the harness goes on
+	}
 }
 
 func classify(res string) string {
